@@ -558,10 +558,26 @@ func genWorldPlan(prop string, master uint64, run int) Plan {
 		if r.Chance(1, 4) {
 			b.set(u, r.Intn(9))
 		}
+		if r.Chance(1, 10) {
+			// a second, differently configured parser resolves against bases the first one made:
+			// isolation does not depend on who resolves
+			c2 := genConfig(r, true)
+			var o []OptSpec
+			for _, x := range c2.Opts {
+				if x.N != "failOnVE" {
+					o = append(o, x)
+				}
+			}
+			c2.Opts = o
+			pl.Cfg2 = &c2
+		}
 		derive := func(src int) {
-			if r.Chance(1, 2) {
+			switch {
+			case r.Chance(1, 2):
 				b.clone(src)
-			} else {
+			case pl.Cfg2 != nil && r.Chance(1, 2):
+				b.resolve(src, 3)
+			default:
 				b.resolve(src, 0)
 			}
 		}
